@@ -23,6 +23,11 @@ class Sim:
         self.clock += 1_000_000_000 + self.rng.below(999_999_000) + 1
         if self.clock % 1_000_000_000 == 0:
             self.clock += 1
+        # boundary sub-second parts: one stamp in eight ends in .999999999 (the largest value the record can hold),
+        # one in eight in .000000001 (the smallest that is not "no sub-second part"); the second always advances
+        k = self.clock % 8
+        if k == 0: self.clock = (self.clock // 1_000_000_000) * 1_000_000_000 + 999_999_999
+        elif k == 1: self.clock = (self.clock // 1_000_000_000) * 1_000_000_000 + 1
         return self.clock
 
     def log(self, s):
